@@ -118,6 +118,28 @@ package values
 //@   loop 1 invariant grows: len(trace) >= len(old(trace))
 //@   loop 1 step single: !multi ==> trace == (startTrace(1) ++ seq(evEnv(ev))) ++ (env(ev) == "" ? noEvents() : seq(evSet(into, env(ev), false)))
 
+// IsDefault of the built-in types (C17): exactly the zero value counts as "no default to show", and nothing is modified
+//@ func (*BoolValue).IsDefault
+//@   requires recv: bo != nil
+//@   ensures zero: result == !deref(bo)
+//@   ensures frame: deref(bo) == old(deref(bo))
+//@ func (*StringValue).IsDefault
+//@   requires recv: sa != nil
+//@   ensures zero: result == (len(deref(sa)) == 0)
+//@   ensures frame: deref(sa) == old(deref(sa))
+//@ func (*StringsValue).IsDefault
+//@   requires recv: sa != nil
+//@   ensures zero: result == (len(deref(sa)) == 0)
+//@   ensures frame: deref(sa) == old(deref(sa))
+//@ func (*IntsValue).IsDefault
+//@   requires recv: ia != nil
+//@   ensures zero: result == (len(deref(ia)) == 0)
+//@   ensures frame: deref(ia) == old(deref(ia))
+//@ func (*Floats64Value).IsDefault
+//@   requires recv: ia != nil
+//@   ensures zero: result == (len(deref(ia)) == 0)
+//@   ensures frame: deref(ia) == old(deref(ia))
+
 // DefaultValue (C17, C19): "" when the value says it is the default, else its String()
 //@ pure func valueIsDefault(v any, n int) bool
 //@ pure func valueString(v any, n int) string
